@@ -102,9 +102,14 @@ def embedding(which):
             check('focus-embedding-' + method, bool(np.allclose(fwd(fp), fwd(f), **tol)))
             check('unfocus-embedding-' + method, bool(np.allclose(bwd(fp), bwd(f), **tol)))
         elif which == 'transpose':
+            if S[0] == S[1] or rng.random() < 0.3:
+                # the scalar output-size convention must mean the same square grid as the tuple
+                S = (S[0], S[0])
+                check('focus-scalar-size-' + method, bool(np.allclose(pr.focus_fixed_sampling(f, dx, efl, wvl, odx, S[0], shift=shift, method=method), fwd(f, S=S), **tol)))
+                check('unfocus-scalar-size-' + method, bool(np.allclose(pr.unfocus_fixed_sampling(f, odx, efl, wvl, dx, S[0], shift=bshift, method=method), bwd(f, S=S), **tol)))
             St, sht = (S[1], S[0]), (shift[1], shift[0])
-            check('focus-transpose-' + method, bool(np.allclose(fwd(f.T, S=St, shift=sht), fwd(f).T, **tol)))
-            check('unfocus-transpose-' + method, bool(np.allclose(bwd(f.T, S=St, shift=(bshift[1], bshift[0])), bwd(f).T, **tol)))
+            check('focus-transpose-' + method, bool(np.allclose(fwd(f.T, S=St, shift=sht), fwd(f, S=S).T, **tol)))
+            check('unfocus-transpose-' + method, bool(np.allclose(bwd(f.T, S=St, shift=(bshift[1], bshift[0])), bwd(f, S=S).T, **tol)))
         elif which == 'all-pass-mask':
             # a mask that transmits everything over the whole band: N_fpm dx_fpm = lambda f / dx on each axis
             q = int(rng.integers(1, 3))
